@@ -209,6 +209,8 @@ pub enum StreamSel {
     AliasBelow,
     /// other numbers that name no stream: -1, 2^32, 1e300
     OutOfRange,
+    /// any of the existing streams (the n-th by a draw made at selection time)
+    Random(u8),
 }
 
 #[derive(Clone, Copy, Debug, PartialEq)]
@@ -236,6 +238,10 @@ fn sel_stream(m: &Model, s: StreamSel) -> Option<u32> {
         StreamSel::Deleted => Some(m.deleted_streams.last().cloned().unwrap_or(2)),
         StreamSel::Never => Some(77),
         StreamSel::Zero => Some(0),
+        StreamSel::Random(n) => {
+            let k = m.streams.len();
+            Some(if k == 0 { 1 } else { *m.streams.keys().nth((n as usize * 37) % k).unwrap() })
+        }
         StreamSel::NoArg | StreamSel::AliasAbove | StreamSel::AliasBelow | StreamSel::OutOfRange => None,
     }
 }
@@ -372,7 +378,13 @@ pub const ENUM_ALPHABET_B: [Sym; 14] = [
 pub const PREFIX_B: [Sym; 4] = [Sym::ConnectGood, Sym::Accept(IdSel::Oldest), Sym::CreateStream, Sym::CreateStream];
 
 pub fn random_sym(rng: &mut Rng, m: &Model) -> Sym {
-    let ss = |rng: &mut Rng| *rng.pick(&[StreamSel::First, StreamSel::First, StreamSel::Last, StreamSel::Last, StreamSel::Deleted, StreamSel::Never, StreamSel::Zero]);
+    let ss = |rng: &mut Rng| {
+        if rng.chance(1, 6) {
+            StreamSel::Random(rng.u8())
+        } else {
+            *rng.pick(&[StreamSel::First, StreamSel::First, StreamSel::Last, StreamSel::Last, StreamSel::Deleted, StreamSel::Never, StreamSel::Zero])
+        }
+    };
     // bias: make progress likely (connect, accept) but keep rare orders frequent
     let progress = rng.chance(1, 3);
     if progress {
